@@ -20,10 +20,7 @@ def _ref(name):
 
 def _x64_block(cls):
     """statements executed for 64-bit files: body of `if x64:` in __init__, or of the ELFCLASS64 test in unpack"""
-    for mname in ("__init__", "unpack"):
-        f = cls.methods.get(mname)
-        if f is None:
-            continue
+    for mname, f in sorted(cls.methods.items(), key=lambda kv: (kv[0] not in ("__init__", "unpack"), kv[0])):
         for n in ast.walk(f.node):
             if isinstance(n, ast.If):
                 t = norm(n.test)
@@ -106,20 +103,42 @@ def r_rectab(repo, tier):
         "S0..S9) and the Intel-HEX record-type constants",
     )
     ref = _ref("records.json")
-    # SREC size table: list literal indexed by self.SRECtype inside SRECline.size
+    # SREC address-width table: the container subscripted by self.SRECtype in SRECline.size -- a list literal or a dict
+    # (inline or bound at module level), keyed by position or by the record-type constants
     f = repo.func(SREC, "SRECline.size")
+    msrec = repo.mod(SREC)
+    consts = {}
+    for n in ast.walk(msrec.tree):
+        if isinstance(n, ast.Assign) and isinstance(n.targets[0], ast.Name) and isinstance(n.value, ast.Constant) and isinstance(n.value.value, int):
+            consts[n.targets[0].id] = n.value.value
     tab = None
+    where = f.node.lineno
     for n in ast.walk(f.node):
-        if isinstance(n, ast.Subscript) and isinstance(n.value, ast.List) and all(isinstance(e, ast.Constant) for e in n.value.elts):
-            tab = [e.value for e in n.value.elts]
+        if isinstance(n, ast.Subscript) and "SRECtype" in norm(n.slice):
+            c = n.value
+            if isinstance(c, ast.Name):
+                for s2 in msrec.tree.body:
+                    if isinstance(s2, ast.Assign) and isinstance(s2.targets[0], ast.Name) and s2.targets[0].id == c.id:
+                        c = s2.value
+                        where = s2.lineno
+            if isinstance(c, ast.List) and all(isinstance(e, ast.Constant) for e in c.elts):
+                tab = {k: e.value for k, e in enumerate(c.elts)}
+            elif isinstance(c, ast.Dict):
+                tab = {}
+                for k, v in zip(c.keys, c.values):
+                    kk = k.value if isinstance(k, ast.Constant) else consts.get(getattr(k, "id", None))
+                    if kk is None or not isinstance(v, ast.Constant):
+                        tab = None
+                        break
+                    tab[kk] = v.value
     if tab is None:
-        raise AnalysisError("R-RECTAB: S-record width table not found in SRECline.size")
-    out.inst("SREC::widths", {"table": tab, "reference": ref["srec_address_digits"]})
-    for k, (a, b) in enumerate(zip(tab, ref["srec_address_digits"])):
-        if b is not None and a != b:
-            out.report(SREC, "SRECline.size", "S%d address digits %d" % (k, a), f.node.lineno, "S%d records carry a %d-digit address field, the table says %d" % (k, b, a))
-    if len(tab) != len(ref["srec_address_digits"]):
-        out.report(SREC, "SRECline.size", "table length %d" % len(tab), f.node.lineno, "the width table must have one row per record type S0..S9")
+        raise AnalysisError("R-RECTAB: S-record width table (container subscripted by self.SRECtype) not recognised in SRECline.size")
+    out.inst("SREC::widths", {"table": {str(k): v for k, v in sorted(tab.items())}, "reference": ref["srec_address_digits"]})
+    for k, b in enumerate(ref["srec_address_digits"]):
+        if k not in tab:
+            out.report(SREC, "SRECline.size", "S%d has no row" % k, where, "record type S%d has no entry in the address-width table: a line starting with 'S%d' raises %s, which SRECline.set does not convert into SRECError" % (k, k, "KeyError"))
+        elif b is not None and tab[k] != b:
+            out.report(SREC, "SRECline.size", "S%d address digits %d" % (k, tab[k]), where, "S%d records carry a %d-digit address field, the table says %d" % (k, b, tab[k]))
     # constants
     for rel, block, refk in ((HEX, "HEXcode", "hex_record_types"), (SREC, "SREC", "srec_record_types")):
         m = repo.mod(rel)
